@@ -186,15 +186,18 @@ Proof.
     cbn [c_ops cl zero_slot set_job set_jobs set_pl] in X. lia.
   - (* CInitBuf *)
     assert (E : Ac cfg s = initW cfg (c_ops (cl s))) by (unfold Ac; rewrite Epc; reflexivity).
-    match type of H with (if _ then Some (set_cpc _ ?x) else _) = _ => set (s1 := x) in * end.
+    match type of H with Some (set_cpc _ ?x) = _ => set (s1 := x) in * end.
     assert (F : FT cfg s1 = WJ cfg + RELC cfg) by (unfold FT, NPf; cbn; lia).
     assert (P1 : Pre cfg s1) by (pre_same P).
-    destruct (ldm (mt s)); inv_some H.
-    + rewrite ac_at. cbn [awake]. change (c_ops (cl s1)) with (c_ops (cl s)). unfold initW in E. lia.
-    + pose proof (ac_finish_ft cfg s1 (ROk 0) P1) as X. change (c_ops (cl s1)) with (c_ops (cl s)) in X. unfold initW in E. lia.
+    inv_some H.
+    rewrite ac_at. cbn [awake]. change (c_ops (cl s1)) with (c_ops (cl s)). unfold initW in E. lia.
   - (* CInitSeq *)
     assert (E : Ac cfg s = opsW cfg (c_ops (cl s)) + FT cfg s + 1) by (unfold Ac; rewrite Epc; reflexivity).
-    inv_some H. match goal with |- context[finish_op cfg ?x _] => set (s1 := x) in * end.
-    pose proof (ac_finish_ft cfg s1 (ROk 0) ltac:(pre_same P)) as X.
-    change (c_ops (cl s1)) with (c_ops (cl s)) in X. change (FT cfg s1) with (FT cfg s) in X. lia.
+    destruct (ldm (mt s)); inv_some H.
+    + match goal with |- context[finish_op cfg ?x _] => set (s1 := x) in * end.
+      pose proof (ac_finish_ft cfg s1 (ROk 0) ltac:(pre_same P)) as X.
+      change (c_ops (cl s1)) with (c_ops (cl s)) in X. change (FT cfg s1) with (FT cfg s) in X. lia.
+    + match goal with |- context[finish_op cfg ?x _] => set (s1 := x) in * end.
+      pose proof (ac_finish_ft cfg s1 (ROk 0) ltac:(pre_same P)) as X.
+      change (c_ops (cl s1)) with (c_ops (cl s)) in X. change (FT cfg s1) with (FT cfg s) in X. lia.
 Qed.
